@@ -172,7 +172,15 @@ def fault_programs(rng, w, n):
     rng.shuffle(out)
     if n >= len(out): return out
     # the ordering family is always represented by the out-of-range index with a zero and a non-zero divisor, and the in-range control
-    must = [o for o in out if o[2].startswith('two_') and (o[2].startswith('two_lengthwrap') or o[2].startswith('two_guard_before') or (o[2].startswith('two_bytelen') and o[1][0] == '255') or o[2] == 'two_div_string_length' or (o[1][0] in ('3', '0') and o[1][1:2] in (['0'], ['1'])))]
+    # compound division / modulus on byte targets: the operation is on ints and only the result is narrowed - a divisor that is a
+    # non-zero multiple of 256 is not zero
+    for tgt, decl in (('b', 'byte b = 200;'), ('a[1]', 'byte[] a = [1, 200, 3];'), ('g', '')):
+        for op in ('/=', '%='):
+            for rhs in ('256', 'c + 1', '(c + 1) * 2', '512', 'c + 257', 'c * 2 + 2'):
+                src = ('byte g = 200;\nempty @is_you(int n) { write("pre "); byte c = n is byte; %s %s %s %s; write(%s is int); write(" post"); }' % (decl, tgt, op, rhs, tgt))
+                for nv in ('255', '254', '127', '0'):
+                    out.append((src, [nv], 'two_bytecompound'))
+    must = [o for o in out if o[2].startswith('two_') and (o[2].startswith('two_lengthwrap') or o[2] == 'two_bytecompound' or o[2].startswith('two_guard_before') or (o[2].startswith('two_bytelen') and o[1][0] == '255') or o[2] == 'two_div_string_length' or (o[1][0] in ('3', '0') and o[1][1:2] in (['0'], ['1'])))]
     rest = [o for o in out if o not in must]
     return must + rest[:max(0, n - len(must))]
 
@@ -201,6 +209,11 @@ def scope_programs(rng, n):
                         % (rng.choice(['continue;', 'break;', 'acc += 1;']), kind))
         if use_call:
             body.append('acc += helper([i, 2], i);')
+        # a callee that leaves a loop holding arrays by break / continue / falling out, and has no array of its own at its return:
+        # what the loop exit does not release stays on the array stack of the caller
+        use_finder = rng.random() < 0.5
+        if use_finder:
+            body.append('acc += finder([i, 2], i);')
         # a try body that owns no array itself but calls a defeat function (chain) that is defeated while its arrays are alive:
         # the handler must put ap back to where the try began
         dcall = rng.choice(['', '', 'acc += !deep(i);', 'acc += !outer(i);', 'acc += !witharg([i, 4], i);', '!deepv(i); acc += 1;'])
@@ -211,10 +224,27 @@ def scope_programs(rng, n):
                   'int !outer(int i) { int w[2]; w[0] = i; int r = !deep(i + 1); return r + w[0]; }\n'
                   'int !witharg(const int[] v, int i) { !truth_is_defeat(i % 2 == 0); return v[1]; }\n'
                   'empty !deepv(int i) { bool c[11]; c[10] = true; if (c[10]) { int[] q = [i]; !truth_is_defeat(q[0] % 4 != 0); } }\n') if dcall else ''
+        if use_finder:
+            how = rng.choice(['if (k == i % 3) { r = tmp[0] + z[0]; break; }', 'if (k == i % 3) { r = tmp[0] + z[0]; { break; } }',
+                              'if (k != i % 3) { continue; } r = tmp[1] + z[0]; break;', 'while (true) { byte q[1]; q[0] = 2; r += q[0]; break; } if (k == 1) { break; }'])
+            dfuncs += ('int finder(const int[] v, int i) { int r = 0; for (int k = 0; k < 3; k += 1) { int[] tmp = [k, i + v[1]]; byte z[2]; z[0] = 1; %s } return r; }\n' % how)
         src = dfuncs + ('int helper(const int[] v, int i) { int[] loc = [v[0], i]; if (i %% 2 == 0) { return loc[1]; } byte z[3]; z[2] = 1; return v[1] + z[2]; }\n'
                'empty @is_you(int n) { int acc = 0; int[] keep = [5, 6, 7];\n for (int i = 0; i < n; i += 1) {\n  %s\n }\n'
                ' write(acc); write(\' \'); write(keep[0]); write(keep[2]); }' % ('\n  '.join(body)))
         out.append((src, [str(iters)], 'scope'))
+    # callers whose own loop body holds no array (so nothing in the caller puts ap back): a callee that leaves a loop holding
+    # arrays by break / continue / return, with no array of its own alive at its return
+    hows = ['if (k == i % 3) { r = tmp[0] + z[0]; break; }', 'if (k == i % 3) { r = tmp[0] + z[0]; { break; } }',
+            'if (k != i % 3) { continue; } r = tmp[1] + z[0]; break;', 'while (true) { byte q[1]; q[0] = 2; r += q[0]; break; } if (k == 1) { break; }',
+            'if (k == 2) { r = tmp[1]; }', 'if (k == i % 3) { return tmp[0] + z[0]; }', 'try { !truth_is_defeat(k == i % 3); r += 1; } stop { r += tmp[0]; break; }',
+            'try { !truth_is_defeat(k == i % 3); r += 1; } undo { r += z[0]; break; }']
+    for j, how in enumerate(hows):
+        for loop in ('for (int k = 0; k < 3; k += 1)', 'int k = -1; while (k < 2)'):
+            inc = '' if loop.startswith('for') else 'k += 1; '
+            fl = '@' if 'try' in how else ''
+            src = ('int %sfinder(int i) { int r = 0; %s { %sint[] tmp = [k, i + 1]; byte z[2]; z[0] = 1; %s } return r; }\n'
+                   'empty @is_you(int n) { int acc = 0; for (int i = 0; i < n; i += 1) { acc += %sfinder(i); } write(acc); }' % (fl, loop, inc, how, fl))
+            out.append((src, [str(rng.choice([20, 40, 60]))], 'scope'))
     return out
 
 
